@@ -125,7 +125,7 @@ class PathState:
 
 class Exec:
     def __init__(self, f, call_handler, havoc=None, word_args=(), unroll=False, arg_consts=None, int_cells=None, auto=False,
-                 split_max=8, starts=None, pre_conds=(), callee_writes=None, word_phis=None, fresh_per_entry=False):
+                 split_max=8, starts=None, pre_conds=(), callee_writes=None, word_phis=None, fresh_per_entry=False, exit_eq=None):
         """call_handler(ex, path, inst, callee, argvalues) -> result value or None
         havoc(ex, path, header) is called when a fresh iteration starts at a loop header"""
         self.f = f
@@ -145,6 +145,7 @@ class Exec:
         self.pre_conds = list(pre_conds)
         self.word_phis = word_phis          # predicate(phi inst, init value) -> loop-carried value is data (bit word), not a length
         self.fresh_per_entry = fresh_per_entry
+        self.exit_eq = exit_eq or {}      # header block -> (phi inst id, Lf): value of that induction variable when the loop is left through its header test
         self.callee_writes = callee_writes or {}   # callee -> {arg index: (offset, nbytes)} it may write (else: whole object)
 
     # -- value helpers ---------------------------------------------------------
@@ -471,10 +472,16 @@ class Exec:
                     continue
                 q = p.clone()
                 sp = self._assume(q, c, False)
+                exq = self.exit_eq.get(b) if (b in self.heads and origin == b) else None
                 for q2 in self._split(q, sp):
+                    if exq and succ[1] not in self.heads[b]["blocks"]:
+                        q2.env[("i", exq[0])] = exq[1]
                     work.append((succ[1], b, q2, "fork"))
                 sp = self._assume(p, c, True)
                 alts = self._split(p, sp)
+                if exq and succ[0] not in self.heads[b]["blocks"]:
+                    for p2 in alts:
+                        p2.env[("i", exq[0])] = exq[1]
                 for p2 in alts[1:]:
                     work.append((succ[0], b, p2, "fork"))
                 p = alts[0]
